@@ -32,6 +32,8 @@ func init() {
 		Rule{ID: "R01f", Doc: "narrowing conversions in the codec (RDLENGTH, label and name lengths, compression pointers) are range-proved or reviewed", Floor: 10, Run: r01fCodec},
 		Rule{ID: "R02f", Doc: "compression key and pointer range", Floor: 5, AllVariants: true, Run: r02f},
 		Rule{ID: "R20e", Doc: "decoded buffers have one owner (a double release corrupts the next accepted message; shared with C20)", Floor: 1, Run: r20e},
+		Rule{ID: "R20g", Doc: "a record returned to its pool is reset completely (a stale name or TTL field re-emerges in the next decoded or built record; shared with C20)", Floor: 12, Run: r20g},
+		Rule{ID: "R02g", Doc: "short-buffer guards of the codec primitives are exact (no well-formed input rejected)", Floor: 8, Run: r02g},
 	)
 }
 
@@ -810,5 +812,96 @@ func r02f(c *core.Ctx) {
 			}
 		}
 		c.Check(hit, "pointer-only-on-hit", call.Pos(), np, "a compression pointer is emitted only on a table hit", condList(call.Block()))
+	}
+}
+
+// R02g: the short-buffer guards of the codec primitives are exact. In every function of internal/dnsmsg that returns
+// ErrSmallBuffer itself, the bounds obligations of the success path give the number of bytes the primitive needs
+// (`len(buf) - off - K >= 0`); on every return of ErrSmallBuffer the prover must show that one of these needs really
+// fails (`K - 1 - (len(buf) - off) >= 0`). A guard that is off by one in the strict direction is caught by R01a
+// (out of bounds); this rule catches the other direction — well-formed input (e.g. a header-only reply) rejected.
+func r02g(c *core.Ctx) {
+	be := engineFor(c)
+	n := 0
+	for _, fn := range c.SrcFuncs() {
+		if fn.Pkg == nil || fn.Pkg.Pkg.Path() != core.PkgPath("internal/dnsmsg") {
+			continue
+		}
+		var errRets []*ssa.Return
+		for _, ret := range returnsOf(fn) {
+			rs := core.ReturnResults(ret)
+			if len(rs) == 0 {
+				continue
+			}
+			if u, ok := rs[len(rs)-1].(*ssa.UnOp); ok {
+				if g, ok := u.X.(*ssa.Global); ok && g.Name() == "ErrSmallBuffer" {
+					errRets = append(errRets, ret)
+				}
+			}
+		}
+		if len(errRets) == 0 {
+			continue
+		}
+		p := be.prover(fn)
+		// needs of the success path: obligations whose goal has only slice-length / offset / length-parameter symbols
+		type need struct {
+			goal core.Lin
+			desc string
+		}
+		var needs []need
+		core.EachInstr(fn, func(_ *ssa.BasicBlock, _ int, in ssa.Instruction) {
+			obs := siteObligations(p, in)
+			if call, ok := in.(ssa.CallInstruction); ok {
+				obs = append(obs, libObligations(p, call)...)
+				obs = append(obs, be.calleeRequires(p, call)...)
+				// a primitive that copies must copy everything: len(dst) >= len(src)
+				if core.CallName(call) == "builtin.copy" {
+					a := call.Common().Args
+					obs = append(obs, obligation{in, p.Env.LenOf(a[0]).Sub(p.Env.LenOf(a[1])), "copy(" + core.Expr(a[0]) + ", " + core.Expr(a[1]) + ") copies all of its source", "copy-complete"})
+					obs = append(obs, obligation{in, p.Env.LenOf(a[1]).Sub(p.Env.LenOf(a[0])), "copy(" + core.Expr(a[0]) + ", " + core.Expr(a[1]) + ") fills its destination", "copy-complete"})
+				}
+			}
+			for _, ob := range obs {
+				if ob.kind == "slice-low>=0" || ob.kind == "index>=0" || ob.kind == "slice-high>=0" || ob.kind == "slice-low<=high" && ob.goal.NonNeg() {
+					continue
+				}
+				hasLen := false
+				for s, k := range ob.goal.T {
+					if strings.HasPrefix(s, "len(") && k > 0 {
+						hasLen = true
+					}
+				}
+				if hasLen {
+					needs = append(needs, need{ob.goal, ob.desc})
+				}
+			}
+		})
+		if len(needs) == 0 {
+			continue
+		}
+		for i, ret := range errRets {
+			n++
+			key := fmt.Sprintf("tight-guard:%s#%d", core.FuncName(fn), i+1)
+			okT := false
+			why := ""
+			for _, nd := range needs {
+				neg := nd.goal.MulC(-1).AddC(-1) // the need fails
+				if ok, w := p.Prove(neg, ret.Block()); ok {
+					okT, why = true, "on this return "+nd.desc+" is impossible: "+w
+					break
+				}
+			}
+			var ds []string
+			for _, nd := range needs {
+				ds = append(ds, nd.desc)
+			}
+			if !okT {
+				why = "none of the success path's needs is shown to fail here: " + strings.Join(dedup(ds), "; ")
+			}
+			c.Check(okT, key, ret.Pos(), fn, "ErrSmallBuffer is returned only when the bytes the primitive needs are really missing (no well-formed input is rejected)", why)
+		}
+	}
+	if n < 8 {
+		c.Unknown("tight-guards", 0, nil, "at least 8 ErrSmallBuffer returns in codec primitives", fmt.Sprint(n))
 	}
 }
